@@ -80,6 +80,13 @@ impl Buildpack for TB {
             let me = c.buildpack_dir.join("buildpack.toml"); // any small existing file serves as the program to copy
             alpha.write_exec_d_programs((0..12).map(|i| (format!("prog-{i}"), me.clone())).collect::<std::collections::HashMap<_, _>>())?;
             std::fs::write(alpha.path().join("payload.bin"), b"payload").unwrap();
+            // exec.d names with a directory component and distinct sources: whatever the outcome (today: an error, nothing copied),
+            // it must be the same in every process
+            let gamma = c.uncached_layer(libcnb::data::layer_name!("gamma"), UncachedLayerDefinition { build: false, launch: true })?;
+            let mut progs = std::collections::HashMap::new();
+            for n in ["web", "worker", "clock", "console"] { let src = alpha.path().join(format!("src-{n}")); std::fs::write(&src, n).unwrap(); progs.insert(format!("{n}/env"), src); }
+            let res = gamma.write_exec_d_programs(progs);
+            std::fs::write(gamma.path().join("result.txt"), format!("ok={}", res.is_ok())).unwrap();
             let beta = c.cached_layer(libcnb::data::layer_name!("beta"), CachedLayerDefinition { build: false, launch: true,
                 invalid_metadata_action: &|_| InvalidMetadataAction::DeleteLayer, restored_layer_action: &|_: &GenericMetadata, _| RestoredLayerAction::KeepLayer })?;
             let mut t = toml::Table::new();
